@@ -252,6 +252,12 @@ func scribble(c *CfgCore) {
 	}
 	c.EmbS = poisonS
 	c.After = poisonI
+	if c.SkipM != nil {
+		c.SkipM[poisonS] = poisonI
+	}
+	if c.SkipP != nil {
+		*c.SkipP = poisonI
+	}
 }
 
 func (r *Run) mutator(c *ClientSpec) {
